@@ -234,6 +234,27 @@ fn enumerate_c02(cli: &Cli, r: &Report) {
             }
         }
     }
+    // A time budget that ends the run while the sample size is still being tuned: the samples of the newest
+    // tuning round are the reported ones and must carry their allocation figures like any other.
+    for (entry, ishape, oshape) in shapes() {
+        for max in [1u64, 20, 60] {
+            for threads in [1usize, 2] {
+                let mut base = LoopCase::basic(entry, ishape, oshape);
+                base.alloc = [1, 2, 4, 3, 5];
+                base.threads = threads;
+                base.sample_count = Some(2);
+                base.sample_size = None;
+                base.max_time_ns = Some(max);
+                base.cost[SITE_CALL] = vec![3_000];
+                base.cost[SITE_GEN] = vec![if entry >= 2 { 2_000 } else { 0 }];
+                base.input_counters = if entry >= 2 { 1 } else { 0 };
+                index += 1;
+                if cli.mine(index) {
+                    check(r, "C02", &base, index);
+                }
+            }
+        }
+    }
     // Threads that perform no allocator operation at all next to threads that do: figures must stay with
     // the thread (and sample) that produced them, whatever the position of the silent thread.
     for (entry, ishape, oshape) in [(0usize, 0usize, 0usize), (2, 2, 0), (2, 3, 3), (4, 2, 3)] {
@@ -255,6 +276,7 @@ fn enumerate_c02(cli: &Cli, r: &Report) {
         }
     }
     r.set_bounds(json!({
+        "budget_during_tuning": "every shape x max_time in {1,20,60} ns x T in {1,2}, automatic sample size, allocation scripts at every site",
         "silent_threads": "4 entry/shape classes x T in {2,3} x every proper non-empty subset of allocating threads x 1 or 2 rounds (real threads)",
         "lazy_allocation": "every shape x allocation only before round 1/2/4 x T in {1,2} x site in {call, generator, output drop}, automatic sample size",
         "alloc_scripts_per_site": nscripts, "sites": SITE_NAMES, "path_classes": path_classes().len(),
